@@ -447,12 +447,14 @@ class MT(T):
                     if sp.expand(hi - s._shape[ax]) != 0:
                         conds.append(idx[ax] < hi)
                     sub.append(idx[ax] - lo)
+            cond = sp.And(*conds) if conds else sp.true
+            if cond is sp.false:
+                continue                 # this write does not cover the (concrete) position that is read
             if isinstance(val, T):
                 vshape = tuple(simp_int(p[2] - p[1]) for p in plan if p[0] == 'out')
                 v = val.at(tuple(sub), vshape, getattr(val, '_wmask', None))
             else:
                 v = w(val)
-            cond = sp.And(*conds) if conds else sp.true
             if cond is sp.true:
                 e = v
             else:
